@@ -163,7 +163,7 @@ def mutate(ctx, rng, m):
                                        *[a for a, _ in rng.sample(mc.attributes, rng.randint(1, min(2, len(mc.attributes))))])
         elif k == 'define_class':
             m.define_class('Fresh%d' % rng.randrange(10 ** 6), [('x', 'INTEGER'), ('y', 'STRING')])
-    except (xtuml.MetaException, AttributeError):
+    except (xtuml.MetaException, AttributeError, TypeError, ValueError, KeyError):
         # rejected (or the model's own earlier attribute surgery makes an instance
         # unprintable): still followed by the observation of all other metamodels
         return (k + '-raised', mc.kind)
